@@ -41,38 +41,54 @@ def run(R):
         g = f.cfg
         rp = f.params[1]
         ks = [k for k in calls_in(f.node) if dotted(k.func) == 're.compile']
-        c.need(len(ks) == 2, '_coerce_expect_re: expected two re.compile calls')
+        c.need(len(ks) in (1, 2), '_coerce_expect_re: expected one re.compile call per direction (or one shared by both)')
+
+        def conversions(k):
+            """how the pattern text handed to this re.compile was converted: the encode / decode calls it is, or a local it was bound to, is"""
+            a0 = k.args[0] if k.args else None
+            if isinstance(a0, ast.Call) and callee_last(a0) in ('encode', 'decode'):
+                return [a0]
+            if isinstance(a0, ast.Name):
+                return [st.value for st in iter_nodes(f.node) if isinstance(st, ast.Assign) and a0.id in assigned_names(st)
+                        and isinstance(st.value, ast.Call) and callee_last(st.value) in ('encode', 'decode')]
+            return []
         for k in ks:
             fl = k.args[1] if len(k.args) > 1 else next((kw.value for kw in k.keywords if kw.arg == 'flags'), None)
             ok = fl is not None and any(norm(x) == '%s.flags' % rp for x in ast.walk(fl))
             c.check(ok, f, k, 'the re-compiled pattern is given the flags of the original (%s.flags)' % rp,
                     witness=norm(k), kind='flow', tag='flags-kept:' + norm(k.args[0])[:20])
+            convs = conversions(k)
+            dirs = sorted(set(callee_last(x) for x in convs))
+            c.need(dirs, '_coerce_expect_re: how the pattern text of %s is converted was not found' % norm(k)[:50])
             if ok:
-                # bit-level truth table: every flag of the original survives; the UNICODE bit (illegal for bytes patterns) may only be CLEARED
-                to_bytes = isinstance(k.args[0], ast.Call) and callee_last(k.args[0]) == 'encode'
+                # bit-level truth table: every flag of the original survives; the UNICODE bit (illegal for bytes patterns) may only be CLEARED.
+                # A compile shared by both directions must satisfy both rows.
                 bad = None
                 named = sorted(set(x.attr for x in ast.walk(fl) if isinstance(x, ast.Attribute) and isinstance(x.value, ast.Name) and x.value.id == 're'
                                    and x.attr not in ('UNICODE', 'U')))
-                for bit in ['UNICODE', 'OTHER'] + named:
-                    for inp in (0, 1):
-                        try:
-                            out = flag_bit(fl, rp, bit, inp)
-                        except ValueError as e:
-                            raise AnalysisError('C20-D3: flag expression not understood: %s' % e)
-                        if bit not in ('UNICODE',) and out != inp:
-                            bad = 'a flag of the original pattern that is %s comes out %s' % ('set' if inp else 'clear', 'set' if out else 'clear')
-                        if bit == 'UNICODE' and to_bytes and out != 0:
-                            bad = 'for a bytes pattern the UNICODE bit must end up clear, but an original with UNICODE %s yields it set (re.compile then raises ValueError, e.g. for a str pattern compiled with re.ASCII)' % ('set' if inp else 'clear')
-                        if bit == 'UNICODE' and not to_bytes and out not in (inp, 1):
-                            bad = 'the UNICODE bit of the original is lost'
+                for to_bytes in [d_ == 'encode' for d_ in dirs]:
+                    for bit in ['UNICODE', 'OTHER'] + named:
+                        for inp in (0, 1):
+                            try:
+                                out = flag_bit(fl, rp, bit, inp)
+                            except ValueError as e:
+                                raise AnalysisError('C20-D3: flag expression not understood: %s' % e)
+                            if bit not in ('UNICODE',) and out != inp:
+                                bad = 'a flag of the original pattern (%s) that is %s comes out %s' % (
+                                    'any flag the expression does not name, e.g. re.ASCII' if bit == 'OTHER' else 're.' + bit, 'set' if inp else 'clear', 'set' if out else 'clear')
+                            if bit == 'UNICODE' and to_bytes and out != 0:
+                                bad = 'for a bytes pattern the UNICODE bit must end up clear, but an original with UNICODE %s yields it set (re.compile then raises ValueError, e.g. for a str pattern compiled with re.ASCII)' % ('set' if inp else 'clear')
+                            if bit == 'UNICODE' and not to_bytes and out not in (inp, 0):
+                                bad = 'the UNICODE bit is forced on for a str pattern (an original compiled with re.ASCII then fails to compile)'
                 c.check(bad is None, f, k, 'bit by bit the new flags equal the original ones (UNICODE cleared, never toggled, when the target is a bytes pattern)',
                         witness=('%s: %s' % (norm(fl), bad)) if bad else None, kind='alg', tag='flags-bits:' + norm(k.args[0])[:20])
-            a = k.args[0]
-            okc = isinstance(a, ast.Call) and callee_last(a) in ('encode', 'decode') and a.args and is_const(a.args[0], 'utf-8')
-            c.check(okc, f, k, 'the pattern text is converted with utf-8', witness=norm(a), kind='ast', tag='utf8:' + norm(a)[:20])
+            okc = all(x.args and is_const(x.args[0], 'utf-8') for x in convs)
+            c.check(okc, f, k, 'the pattern text is converted with utf-8', witness=', '.join(norm(x) for x in convs), kind='ast', tag='utf8:' + norm(k.args[0])[:20])
         rets = returns(f)
         last = [r for r in rets if is_name(r.ast.value, rp)]
-        c.check(len(last) >= 1 and len(returns(f)) == len(last) + 2, f, last[0].ast if last else None, 'a pattern already of the right type is returned unchanged', kind='ast', tag='passthrough')
+        others = [r for r in rets if not is_name(r.ast.value, rp)]
+        c.check(len(last) >= 1 and all(isinstance(r.ast.value, ast.Call) and dotted(r.ast.value.func) == 're.compile' for r in others), f, last[0].ast if last else None,
+                'a pattern already of the right type is returned unchanged (every other return is the re-compiled pattern)', kind='ast', tag='passthrough')
         pvn = [n2.targets[0].id for n2 in iter_nodes(f.node) if isinstance(n2, ast.Assign) and isinstance(n2.targets[0], ast.Name) and norm(n2.value) == '%s.pattern' % rp]
         pv_ = pvn[0] if pvn else 'p'
         # what is returned for each combination of object mode and pattern type, found by walking the routine under that truth
@@ -94,6 +110,11 @@ def run(R):
                     elif isinstance(v_, ast.Call) and dotted(v_.func) == 're.compile' and v_.args and isinstance(v_.args[0], ast.Call) \
                             and callee_last(v_.args[0]) in ('encode', 'decode'):
                         outs.add(callee_last(v_.args[0]))
+                    elif isinstance(v_, ast.Call) and dotted(v_.func) == 're.compile' and v_.args and isinstance(v_.args[0], ast.Name):
+                        # the text was converted into a local on the way: the last binding of that local on THIS path
+                        bnd = [n_ for n_ in path if n_.kind == 'stmt' and isinstance(n_.ast, ast.Assign) and v_.args[0].id in assigned_names(n_.ast)]
+                        lv = bnd[-1].ast.value if bnd else None
+                        outs.add(callee_last(lv) if isinstance(lv, ast.Call) and callee_last(lv) in ('encode', 'decode') else 'compiled from an unconverted %s' % v_.args[0].id)
                     else:
                         outs.add(norm(v_)[:40] if v_ is not None else 'None')
                 table[(enc_none, is_bytes)] = sorted(outs)
